@@ -78,8 +78,16 @@ impl MerkleTree {
         self.levels[0].push(hash);
     }
 
+    /// Width in bytes of every node in this tree: 64 (Google) or 32 (IETF, `SHA-512[0:32]`)
+    fn node_len(&self) -> usize {
+        match self.version {
+            RfcDraft13 => 32,
+            Google => self.algorithm.output_len(),
+        }
+    }
+
     pub fn get_paths(&self, mut index: usize) -> Vec<u8> {
-        let mut paths = Vec::with_capacity(self.levels.len() * self.algorithm.output_len());
+        let mut paths = Vec::with_capacity(self.levels.len() * self.node_len());
         let mut level = 0;
 
         while !self.levels[level].is_empty() {
@@ -114,7 +122,8 @@ impl MerkleTree {
             }
 
             if node_count % 2 != 0 {
-                self.levels[level - 1].push(vec![0; self.algorithm.output_len()]);
+                let zero_node = vec![0; self.node_len()];
+                self.levels[level - 1].push(zero_node);
                 node_count += 1;
             }
 
@@ -132,7 +141,7 @@ impl MerkleTree {
         assert_eq!(self.levels[level].len(), 1);
         let result = self.levels[level].pop().unwrap();
 
-        self.finalize_output(result)
+        result
     }
 
     pub fn reset(&mut self) {
@@ -158,15 +167,15 @@ impl MerkleTree {
         for data in to_hash {
             ctx.update(data);
         }
-        Data::from(ctx.finish().as_ref())
+        self.finalize_output(Data::from(ctx.finish().as_ref()))
     }
 
     pub fn root_from_paths(&self, mut index: usize, data: &[u8], paths: &[u8]) -> Hash {
         let mut hash = self.hash_leaf(data);
 
-        assert_eq!(paths.len() % self.algorithm.output_len(), 0);
+        assert_eq!(paths.len() % self.node_len(), 0);
 
-        for path in paths.chunks(self.algorithm.output_len()) {
+        for path in paths.chunks(self.node_len()) {
             let mut ctx = digest::Context::new(self.algorithm);
             ctx.update(TREE_NODE_TWEAK);
 
@@ -180,11 +189,11 @@ impl MerkleTree {
                 ctx.update(&hash);
             }
 
-            hash = Hash::from(ctx.finish().as_ref());
+            hash = self.finalize_output(Hash::from(ctx.finish().as_ref()));
             index >>= 1;
         }
 
-        self.finalize_output(hash)
+        hash
     }
 
     #[inline]
